@@ -7,6 +7,8 @@ canonical event list must equal the one of the Lean model (Model/Fit.lean).
 predicate (real code): parameters after fit == parameters after an explicit
 simulate/loss/backward/step reference loop under the same seed (bitwise); the gradient present at
 each step equals the gradient of that epoch's single batch (no accumulation); history length.
+correspondence (numbers): the real Hedger.fit vs the numeric model `fitNum` (Model/FitNum.lean, op "fit_num"): parameters
+after fit, per-epoch training losses, validation evaluations / history, gradients at the steps (check_fit_num).
 """
 import copy
 from common import *  # noqa
@@ -275,6 +277,7 @@ def check(ctx):
                     break
         events = events_ref
     check_prev_hedge(ctx, torch, g)
+    check_fit_num(ctx, torch)
     try:
         outs = ctx.driver(reqs)
     except DriverBroken as e:
@@ -297,6 +300,16 @@ def check(ctx):
              "(SGD, Adam), lazy and materialised models, validation on/off, explicit hedge list, two criteria; state-dependent hedgers "
              "(prev_hedge among the inputs, 3..6 time steps) against a HAND-UNROLLED hedge/wealth/criterion (gradient at every optimiser "
              "step on the same batch and parameters; parameters after fit vs the explicit loop; relative tolerance 1e-9); "
+             "op fit_num (the numeric model fitNum of Model/FitNum.lean the theorems of Lemmas/C15Num.lean are about: per epoch zero_grad, "
+             "lossOfH of that epoch's batch, gradient = eps-parts at dual numbers, torch.optim.SGD (lr in {0.01,0.1,0.5}, momentum in {0,0.5,0.9}, "
+             "weight decay in {0,1/16}) / Adam (lr in {0.001,0.01,0.1}, default betas/eps) step, validation at the new parameters): real "
+             "Hedger.fit with the optimiser given as an Optimizer subclass and as an instance, epochs 0..4, n_paths in {2,4,8,16}, 2/3/5 "
+             "hedging dates, n_times in {1,2,3}, Linear / ReLU-MLP models in float64, H in {1,2} instruments (underlier + a listed a*S+b "
+             "derivative), with and without prev_hedge, criteria ERM / ES / entropic loss / MSE, cost rates zero and positive, on the batches "
+             "re-simulated under the same torch seed: parameters after fit, training loss of every epoch, every validation evaluation, the "
+             "returned history and the gradient at every optimiser step, relative tolerance 1e-9 on the max-norm; step and evaluation "
+             "counts exactly; cases within 2^-20 of a kink (|position change| / |first position| with a non-zero cost rate, ReLU, ES tie) "
+             "or, for Adam, with a gradient component in (0, 1e-6) are rejected and counted (fit_num_rejected_near_kink); "
              "non-trivial = k>=1; distinct = sha1 of canonical case")
 
 
@@ -461,3 +474,263 @@ def check_prev_hedge(ctx, torch, g):
             ctx.fail("parameters after fit differ from an explicit simulate/loss/backward/step loop under the same seed whose loss unrolls the "
                      "hedge by hand (hedger with prev_hedge among its inputs)", case, key="fit:reference-loop:hand-unrolled",
                      detail={"max_abs_diff": diff, "max_abs_parameter": scale})
+
+
+# ---------------------------------------------------------------------------------------------------------------------------
+# the NUMBERS of the protocol: the Lean model `fitNum` (Model/FitNum.lean, driver op "fit_num") executes the whole training loop on the
+# batches of the run - per epoch zero_grad, loss of THAT batch (`lossOfH`), gradient (eps-parts of the same loss at dual numbers, one
+# forward pass per parameter), torch.optim.SGD / Adam step, validation losses at the new parameters - and must reproduce what the REAL
+# Hedger.fit leaves behind: the parameters after fit, the training loss of every epoch (read off a logging criterion), the individual
+# validation evaluations and the returned history.  The batches are obtained by re-simulating under the same seed with a twin derivative
+# (simulate calls in the documented order: training batch, then n_times validation batches per epoch); the twin also runs the explicit
+# reference loop, only to locate kinks (|position change| / |first position| of an instrument with a non-zero cost rate, ReLU pre-activation,
+# tie at the cut of the expected shortfall) on the trajectory: a case within 2^-20 of one is rejected and counted, not tolerated.
+# float64 throughout; the model's gradients are forward-mode, torch's reverse-mode, the optimiser kernels fuse multiply-adds: relative
+# tolerance 1e-9 on the max-norm.
+
+def check_fit_num(ctx, torch):
+    import functools
+    import pfhedge.nn as nn
+    import pfhedge.instruments as I
+    from pfhedge.nn import Hedger
+    g = Gen(f"{ctx.seed}:fit_num")
+    dt = torch.float64
+    RTOL = 1e-9
+    KINK = 2.0 ** -20
+    want = 30 if ctx.tier == "quick" else 300
+    FEATS = {"moneyness": ["moneyness", False], "log_moneyness": ["moneyness", True], "time_to_maturity": ["time_to_maturity"],
+             "volatility": ["volatility"], "underlier_spot": ["underlier_spot", False], "prev_hedge": ["prev_hedge"]}
+    reqs, metas = [], []
+    accepted = attempts = rejected = 0
+    while accepted < want and attempts < 8 * want:
+        attempts += 1
+        k = g.choice([0, 1, 2, 3, 4])
+        n_paths = g.choice([2, 4, 8, 16])
+        n_steps = g.choice([2, 3, 5])
+        n_times = g.choice([1, 1, 2, 3])
+        validation = g.chance(0.6)
+        optkind = g.choice(["cls", "instance"])
+        optname = g.weighted([("SGD", 3), ("Adam", 1)])
+        if optname == "SGD":
+            lr = g.choice([0.01, 0.1, 0.5])
+            momentum = g.choice([0.0, 0.0, 0.9, 0.5])
+            wd = g.choice([0.0, 0.0, 0.0, 0.0625])
+            okw = dict(lr=lr, momentum=momentum, weight_decay=wd)
+        else:
+            lr = g.choice([0.001, 0.01, 0.1])
+            momentum, wd = None, g.choice([0.0, 0.0, 0.0625])
+            okw = dict(lr=lr, weight_decay=wd)
+        H = g.choice([1, 1, 2])
+        prev = g.chance(0.4)
+        names = g.r.sample(["moneyness", "log_moneyness", "time_to_maturity", "volatility", "underlier_spot"], g.choice([1, 2]))
+        if prev:
+            names = names + ["prev_hedge"]
+            g.r.shuffle(names)
+        width = sum(H if nm == "prev_hedge" else 1 for nm in names)
+        relu = g.chance(0.5)
+        hid = g.choice([2, 3])
+        crit_name = g.choice(["erm", "es", "eloss", "mse"])
+        a = g.choice([0.5, 1.0, 2.0])
+        kk = g.choice([x for x in (1, 2, n_paths // 2, n_paths) if x <= n_paths])
+        call = g.chance(0.5)
+        strike = g.choice([1.0, 0.95, 1.05])
+        cost = g.choice([0.0, 0.0, 2.0 ** -10, 2.0 ** -7, 3 * 2.0 ** -9])       # exactly representable in single precision (see above)
+        cost2 = g.choice([0.0, 2.0 ** -9, 2.0 ** -6])
+        pa, pb = g.choice([1.0, 2.0, 0.5]), g.choice([0.0, 1.0, -0.25])
+        with_init = g.chance(0.3)
+        seed = g.randint(0, 10 ** 6)
+        case = {"fit_num": True, "epochs": k, "n_paths": n_paths, "n_steps": n_steps, "n_times": n_times, "validation": validation,
+                "opt": optkind, "optimizer": optname, "lr": lr, "momentum": momentum, "weight_decay": wd, "H": H, "inputs": names,
+                "relu_mlp": relu, "hidden": hid if relu else None, "criterion": crit_name, "a": a, "es_k": kk, "call": call, "strike": strike,
+                "cost": cost, "cost2": cost2 if H == 2 else None, "listed_pricer": [pa, pb] if H == 2 else None, "with_init": with_init, "seed": seed}
+        init_state = (1.25,) if with_init else None
+
+        def build():
+            torch.manual_seed(seed)
+            if relu:
+                model = torch.nn.Sequential(torch.nn.Linear(width, hid, dtype=dt), torch.nn.ReLU(), torch.nn.Linear(hid, H, dtype=dt))
+            else:
+                model = torch.nn.Linear(width, H, dtype=dt)
+            crit = {"erm": lambda: nn.EntropicRiskMeasure(a), "es": lambda: nn.ExpectedShortfall(kk / n_paths),
+                    "eloss": lambda: nn.EntropicLoss(a), "mse": lambda: torch.nn.MSELoss()}[crit_name]()
+            stock = I.BrownianStock(cost=cost, dtype=dt)
+            d = I.EuropeanOption(stock, call=call, strike=strike, maturity=n_steps / 250)
+            hedge = [stock]
+            if H == 2:
+                o = I.EuropeanOption(stock, maturity=n_steps / 250)
+                o.list(lambda dd, a_=pa, b_=pb: dd.ul().spot * a_ + b_, cost=cost2)
+                hedge.append(o)
+            return model, crit, d, stock, hedge
+        crit_spec = {"erm": ["erm", float_bits(a)], "es": ["es", kk], "eloss": ["eloss", float_bits(a)], "mse": ["mse"]}[crit_name]
+        model, crit, d, stock, hedge = build()
+        log = []          # (gradients enabled, value) of every criterion evaluation of the real fit
+
+        class LogCrit(torch.nn.Module):
+            def __init__(self, inner):
+                super().__init__()
+                self.inner = inner
+
+            def forward(self, input, target=0.0):
+                out = self.inner(input, target)
+                log.append((bool(torch.is_grad_enabled()), float(out.detach())))
+                return out
+        hedger = Hedger(model, list(names), criterion=LogCrit(crit))
+        base_opt = getattr(torch.optim, optname)
+        seen_grads = []
+
+        class TheOpt(base_opt):          # fit() accepts an Optimizer SUBCLASS (it looks for Optimizer in __mro__: a lambda / functools.partial is a TypeError)
+            def __init__(self, params):
+                super().__init__(params, **okw)
+
+            def step(self, *a_, **kw_):
+                seen_grads.append([None if p.grad is None else p.grad.detach().clone() for p in model.parameters()])
+                return super().step(*a_, **kw_)
+        opt = TheOpt if optkind == "cls" else TheOpt(model.parameters())
+        theta0 = [p.detach().clone() for p in model.parameters()]
+        torch.manual_seed(seed + 1)
+        st, hist, _ = call_impl(hedger.fit, d, hedge=hedge, n_epochs=k, n_paths=n_paths, n_times=n_times, optimizer=opt,
+                                init_state=init_state, verbose=False, validation=validation)
+        # ---- the twin: the batches of the run, re-simulated under the same seed, and the kinks on the reference trajectory
+        model2, crit2, d2, stock2, hedge2 = build()
+        hedger2 = Hedger(model2, list(names), criterion=crit2)
+        ref_opt = base_opt(model2.parameters(), **okw)
+        sigma = float(stock2.sigma)
+
+        def batch_json():
+            spot = d2.ul().spot.detach()
+            out = []
+            for p_ in range(spot.size(0)):
+                row = enc_flt([float(x) for x in spot[p_].tolist()])
+                T_ = spot.size(1)
+                mj = {"spot": row, "variance": enc_flt([sigma * sigma] * T_), "volatility": enc_flt([sigma] * T_), "listed": row,
+                      "dt": float_bits(float(stock2.dt)), "strike": float_bits(strike), "oracle": enc_flt([0.0] * T_)}
+                hs = [{"kind": "primary", "row": row, "cost": float_bits(cost)}]
+                if H == 2:
+                    hs.append({"kind": "listed", "a": float_bits(pa), "b": float_bits(pb), "row": row, "cost": float_bits(cost2)})
+                out.append({"market": mj, "hedges": hs})
+            return out
+
+        def near_kink():
+            with torch.no_grad():
+                unit = hedger2.compute_hedge(d2, hedge=hedge2)          # (N, H, T)
+                for j_, c_ in enumerate([cost, cost2][:H]):
+                    if c_ > 0:
+                        if unit.size(-1) > 2 and bool((unit[:, j_, :].diff(dim=-1).abs()[..., :-1] < KINK).any()):
+                            return True
+                        if bool((unit[:, j_, 0].abs() < KINK).any()):
+                            return True
+                if relu:
+                    pre_min = [float("inf")]
+
+                    def hook(mod, inp):
+                        pre_min[0] = min(pre_min[0], float(inp[0].abs().min()))
+                    hs_ = [m_.register_forward_pre_hook(hook) for m_ in model2.modules() if isinstance(m_, torch.nn.ReLU)]
+                    hedger2.compute_hedge(d2, hedge=hedge2)
+                    for h_ in hs_:
+                        h_.remove()
+                    if pre_min[0] < KINK:
+                        return True
+                if crit_name == "es" and kk < n_paths:
+                    plv = (hedger2.compute_portfolio(d2, hedge=hedge2) - d2.payoff()).sort().values
+                    if bool((plv[kk] - plv[kk - 1]).abs() < KINK):
+                        return True
+            return False
+        epochs_json, kink, small_grad = [], False, False
+        torch.manual_seed(seed + 1)
+        for ep in range(k):
+            hedger2.train()
+            ref_opt.zero_grad()
+            d2.simulate(n_paths=n_paths, init_state=init_state)
+            ej = {"train": batch_json(), "val": None}
+            kink = kink or near_kink()
+            loss = crit2(hedger2.compute_portfolio(d2, hedge=hedge2), d2.payoff())
+            loss.backward()
+            if optname == "Adam":
+                # Adam divides by sqrt(g^2) + 1e-8: a gradient component that is zero up to rounding has no stable update
+                for p_ in model2.parameters():
+                    gabs = p_.grad.abs()
+                    small_grad = small_grad or bool(((gabs < 1e-6) & (gabs > 0)).any())
+            ref_opt.step()
+            if validation:
+                hedger2.eval()
+                vals = []
+                with torch.no_grad():
+                    for _ in range(n_times):
+                        d2.simulate(n_paths=n_paths, init_state=init_state)
+                        vals.append(batch_json())
+                        kink = kink or (crit_name == "es" and near_kink())
+                ej["val"] = vals
+            epochs_json.append(ej)
+        for key_ in (f"fit_num:opt={optkind}/{optname}", f"fit_num:epochs={k}", f"fit_num:crit={crit_name}", f"fit_num:H={H}",
+                     f"fit_num:prev_hedge={prev}", f"fit_num:cost>0={cost > 0 or (H == 2 and cost2 > 0)}", f"fit_num:validation={validation}"):
+            ctx.stats[key_] += 1
+        if kink or small_grad:
+            rejected += 1
+            ctx.stats["fit_num:rejected_near_kink"] += 1
+            if small_grad and not kink:
+                ctx.stats["fit_num:rejected_adam_gradient_component_near_zero"] += 1
+            continue
+        accepted += 1
+        ctx.case(case, nontrivial=k >= 1, tag="fit_num")
+        ctx.traces += 1
+        layers = [{"w": enc_flt([[float(x) for x in r] for r in w_.tolist()]), "b": enc_flt([float(x) for x in b_.tolist()])}
+                  for w_, b_ in zip(theta0[0::2], theta0[1::2])]
+        opt_spec = (["sgd", float_bits(lr), float_bits(momentum), float_bits(wd)] if optname == "SGD"
+                    else ["adam", float_bits(lr), float_bits(0.9), float_bits(0.999), float_bits(1e-8), float_bits(wd)])
+        reqs.append({"op": "fit_num", "features": [FEATS[nm] for nm in names], "layers": layers,
+                     "payoff": {"kind": "european", "call": call, "strike": float_bits(strike)}, "adds": [], "first": True,
+                     "crit": crit_spec, "opt": opt_spec, "epochs": epochs_json})
+        final = [float(x) for p in model.parameters() for x in p.detach().reshape(-1).tolist()]
+        metas.append((case, st, hist, final, list(log), [[float(x) for t_ in gs if t_ is not None for x in t_.reshape(-1).tolist()] for gs in seen_grads]))
+    ctx.extra["fit_num_cases"] = accepted
+    ctx.extra["fit_num_rejected_near_kink"] = rejected
+    try:
+        outs = ctx.driver(reqs)
+    except DriverBroken as e:
+        ctx.ties_broken.append({"kind": "driver", "detail": str(e)[:1500]})
+        outs = []
+
+    def rel(xs, ys):
+        if len(xs) != len(ys):
+            return float("inf")
+        diff = max([abs(x - y) for x, y in zip(xs, ys)] + [0.0])
+        scale = max([abs(x) for x in list(xs) + list(ys)] + [0.0])
+        if not (diff == diff and scale == scale):
+            return float("inf")
+        return 0.0 if diff == 0.0 else diff / scale
+    worst = 0.0
+    for (case, st, hist, final, log, grads), mo in zip(metas, outs):
+        k, n_times, validation = case["epochs"], case["n_times"], case["validation"]
+        if st != "ok" or "ok" not in mo:
+            ctx.disagree("fit_num", case, (st, str(hist)[:80]), {k_: v_ for k_, v_ in mo.items() if k_ != "ok"} or "ok")
+            continue
+        m = mo["ok"]
+        m_final, m_train = dec_flt(m["final"]), dec_flt(m["train"])
+        m_hist = [None if v is None else float_of_bits(v) for v in m["val"]]
+        m_evals = [x for row in dec_flt(m["val_evals"]) for x in row]
+        m_grads = dec_flt(m["grads"])
+        train = [v for ge, v in log if ge]
+        evals = [v for ge, v in log if not ge]
+        # counts first (exact), then the numbers
+        if m["steps"] != len(grads) or m["loss_evals"] != len(log) or len(m_train) != len(train) or len(m_evals) != len(evals):
+            ctx.disagree("fit_num", case | {"what": "number of optimiser steps / criterion evaluations"},
+                         {"steps": len(grads), "loss_evals": len(log), "training": len(train), "validation": len(evals)},
+                         {"steps": m["steps"], "loss_evals": m["loss_evals"], "training": len(m_train), "validation": len(m_evals)})
+            continue
+        if (hist is None) != (not validation) or (validation and (not isinstance(hist, list) or len(hist) != len(m_hist) or any(v is None for v in m_hist))):
+            ctx.disagree("fit_num", case | {"what": "returned history"}, None if hist is None else len(hist), m_hist)
+            continue
+        checks = [("parameters after fit", final, m_final), ("training loss per epoch", train, m_train),
+                  ("validation evaluations", evals, m_evals)]
+        if validation:
+            checks.append(("returned validation history", [float(x) for x in hist], m_hist))
+        for ep, (ga, gb) in enumerate(zip(grads, m_grads)):
+            checks.append((f"gradient at the optimiser step of epoch {ep}", ga, gb))
+        for what, impl, model_ in checks:
+            r = rel(impl, model_)
+            if r != float("inf"):
+                worst = max(worst, r)
+            if not r <= RTOL:
+                ctx.disagree("fit_num", case | {"what": what}, impl, model_, note=f"relative max-norm difference {r:.3e} > {RTOL}")
+                break
+    ctx.extra["fit_num_max_rel_diff"] = worst
